@@ -46,3 +46,21 @@ package t_api
 //@ nopanic C13
 //@ ensures result1 == nil ==> result0 != nil && jwtverifies(tokenString)
 //@ ensures result1 != nil ==> result0 == nil
+
+// In an HTTP reply a cursor is the JSON string of its token (C14, C15: the page's cursor reaches the client as a
+// well-formed value that the next request can send back; the gRPC front end sends the token itself).
+//@ func (*Cursor[SearchPromisesRequest]).MarshalJSON[SearchPromisesRequest]
+//@ props C14 C15
+//@ nopanic C13
+//@ abstract-calls force ^Encode
+//@ requires c != nil
+//@ ensures result1 == nil ==> calls("Encode") == 1 && jsonstr(result0) == callres("Encode", 0, 0)
+
+// In an HTTP reply a cursor is the JSON string of its token (C14, C15: the page's cursor reaches the client as a
+// well-formed value that the next request can send back; the gRPC front end sends the token itself).
+//@ func (*Cursor[SearchSchedulesRequest]).MarshalJSON[SearchSchedulesRequest]
+//@ props C14 C15
+//@ nopanic C13
+//@ abstract-calls force ^Encode
+//@ requires c != nil
+//@ ensures result1 == nil ==> calls("Encode") == 1 && jsonstr(result0) == callres("Encode", 0, 0)
